@@ -13,14 +13,44 @@ CLAIM = dict(
     text="Coq theorems over executable models of urls._urlencode (stdlib urlencode/quote_plus with werkzeug's safe set, table "
          "regenerated from the source) and urllib.parse.parse_qsl/unquote with werkzeug's error handler: every list of Unicode "
          "key/value pairs (repeated keys, empty keys and values included) round-trips; and of MultipartEncoder.send_event "
-         "(state machine and framing, byte templates regenerated from the source). The models are compared with the "
+         "(state machine and framing, byte templates regenerated from the source), composed with C01's decoder theorems into the "
+         "sans-io round trip for every chunking, and of test.stream_encode_multipart (the test client / EnvironBuilder encoder; "
+         "statements pinned): its wire bytes do not depend on how file contents are read and decode back to the items. "
+         "The models are compared with the "
          "implementation (extracted OCaml vs werkzeug), and impl-level oracles run the three end-to-end paths "
          "(MultipartEncoder->MultipartDecoder, stream_encode_multipart->MultiPartParser, EnvironBuilder->Request.form/files/args).",
     note="Trusted: Coq kernel; translator (safe-set table computed with CPython's quote from the safe string in the source; encoder "
          "byte templates); extraction + driver; hand-written models of stdlib quote_plus/urlencode/parse_qsl/unquote validated "
-         "differentially; the multipart decode half rests on C01's model and theorems; EnvironBuilder, CombinedMultiDict, "
+         "differentially; the multipart decode half rests on C01's model and theorems; the header list of a file item (FileStorage "
+         "headers after Content-Type is set / guessed) is an input of the client model; EnvironBuilder, CombinedMultiDict, "
          "FileStorage, content-type guessing are glue covered by the end-to-end harness only.",
     design="6/C02")
+
+
+CLIENT_LOOP = """for key, value in _iter_data(data):
+    reader = getattr(value, 'read', None)
+    if reader is not None:
+        filename = getattr(value, 'filename', getattr(value, 'name', None))
+        content_type = getattr(value, 'content_type', None)
+        if content_type is None:
+            content_type = filename and mimetypes.guess_type(filename)[0] or 'application/octet-stream'
+        headers = value.headers
+        headers.update([('Content-Type', content_type)])
+        if filename is None:
+            write_binary(encoder.send_event(Field(name=key, headers=headers)))
+        else:
+            write_binary(encoder.send_event(File(name=key, filename=filename, headers=headers)))
+        while True:
+            chunk = reader(N)
+            if not chunk:
+                write_binary(encoder.send_event(Data(data=chunk, more_data=False)))
+                break
+            write_binary(encoder.send_event(Data(data=chunk, more_data=True)))
+    else:
+        if not isinstance(value, str):
+            value = str(value)
+        write_binary(encoder.send_event(Field(name=key, headers=Headers())))
+        write_binary(encoder.send_event(Data(data=value.encode(), more_data=False)))"""
 
 
 def gen() -> None:
@@ -52,7 +82,28 @@ def gen() -> None:
     want = 9
     if len(consts) != want:
         raise px.Unsupported(f"MultipartEncoder.send_event has {len(consts)} byte/f-string literals, model expects {want}: {consts}")
-    text = px.HEADER.format(tool="c02.py", src="urls.py, sansio/multipart.py")
+    # test.stream_encode_multipart: the statements coq/C02/Client.v stands for (the event sequence fed to the encoder)
+    tst = px.load("test.py")
+    sem = px.find_def(tst, "stream_encode_multipart")
+    loops = [st for st in sem.body if isinstance(st, ast.For)]
+    if len(loops) != 1:
+        raise px.Unsupported(f"stream_encode_multipart has {len(loops)} top-level for loops, the model has 1")
+    read_sizes = [n for n in ast.walk(loops[0]) if isinstance(n, ast.Call) and isinstance(n.func, ast.Name) and n.func.id == "reader"]
+    if len(read_sizes) != 1 or len(read_sizes[0].args) != 1 or not isinstance(px.const(read_sizes[0].args[0]), int) \
+            or px.const(read_sizes[0].args[0]) <= 0:
+        raise px.Unsupported("stream_encode_multipart: expected exactly one reader(<positive int>) call")
+    read_size = px.const(read_sizes[0].args[0])
+    loop_text = ast.unparse(loops[0]).replace(f"reader({read_size})", "reader(N)")
+    if loop_text != CLIENT_LOOP:
+        raise px.Unsupported("stream_encode_multipart: the loop over the data changed; coq/C02/Client.v models\n" + CLIENT_LOOP
+                             + "\nbut the source says\n" + loop_text)
+    stmts = [ast.unparse(st) for st in sem.body]
+    i = stmts.index(ast.unparse(loops[0]))
+    if stmts[i - 2: i] != ["encoder = MultipartEncoder(boundary.encode())", "write_binary(encoder.send_event(Preamble(data=b'')))"] \
+            or stmts[i + 1] != "write_binary(encoder.send_event(Epilogue(data=b'')))":
+        raise px.Unsupported(f"stream_encode_multipart: statements around the loop changed: {stmts[i - 2: i + 2]}")
+    text = px.HEADER.format(tool="c02.py", src="urls.py, sansio/multipart.py, test.py")
+    text += f"Definition client_read_size : N := {read_size}.\n"
     text += f"Definition urlencode_safe_text : list N := {px.coq_string_codes(safe)}.\n"
     text += f"Definition urlencode_pass : list (N * N) := {px.coq_ranges(table)}.\n"
     text += "Definition encoder_literals : list (list N) :=\n  [" + ";\n   ".join(px.coq_string_codes(c) for c in consts) + "].\n"
@@ -278,6 +329,27 @@ def run(chk: Check) -> None:
                 data2.add(x[0], FileStorage(io.BytesIO(x[1]), filename=x[2], content_type=x[3]))
         boundary = rng.choice(["B", "bnd-1", "----WebKitFormBoundary7MA4YWxkTrZu0gW", "a" * 70])
         stream, length, b2 = stream_encode_multipart(data2, use_tempfile=False, boundary=boundary)
+        # the same call against the model of the test client's encoder (coq/C02/Client.v): byte-exact wire
+        lines.append("senc " + hexs(boundary.encode()) + "".join(" " + t for t in _item_tokens(data2, {})))
+        impl.append("ok " + hexs(stream.read()))
+        stream.seek(0)
+        # ... and once more with file objects whose read() returns short chunks and with non-str text values: the wire must
+        # not depend on how the contents were read
+        data3, reads = MultiDict(), {}
+        for kind, x in order:
+            if kind == "f":
+                data3.add(x[0], rng.choice([x[1], rng.randint(-5, 10 ** 6), 1.5, True, None]) if rng.random() < 0.2 else x[1])
+            else:
+                fs = FileStorage(_ShortReader(x[1], rng, reads), filename=x[2], content_type=x[3])
+                data3.add(x[0], fs)
+        try:
+            s3, _, _ = stream_encode_multipart(data3, use_tempfile=rng.random() < 0.5, threshold=rng.choice([0, 10, 100, 10 ** 6]), boundary=boundary)
+            w3 = "ok " + hexs(s3.read())
+            s3.close()
+        except Exception as e:  # noqa: BLE001
+            w3 = "exn:" + type(e).__name__
+        lines.append("senc " + hexs(boundary.encode()) + "".join(" " + t for t in _item_tokens(data3, reads)))
+        impl.append(w3)
         try:
             form, fl = MultiPartParser(buffer_size=rng.choice([1, 7, 64, 1 << 16])).parse(stream, b2.encode(), length)
             got2 = (MultiDict(form), MultiDict([(k, (f.filename, f.content_type, f.read())) for k, f in fl.items(multi=True)]))
@@ -307,6 +379,47 @@ def run(chk: Check) -> None:
     chk.count("model:mismatches", mism)
 
 
+class _ShortReader:
+    """a file object whose read(n) returns between 1 and n bytes (records every chunk it handed out)"""
+
+    def __init__(self, data: bytes, rng, log: dict):
+        self.data, self.pos, self.rng, self.log = data, 0, rng, log
+        log[id(self)] = []
+
+    def read(self, n=-1):
+        left = len(self.data) - self.pos
+        if n is None or n < 0:
+            n = left
+        k = min(left, n)
+        if k > 1:
+            k = self.rng.choice([1, 2, k // 2 or 1, k, k])
+        out = self.data[self.pos:self.pos + k]
+        self.pos += k
+        if out:
+            self.log[id(self)].append(out)
+        return out
+
+
+def _item_tokens(data, reads: dict) -> list[str]:
+    """the items of a MultiDict as stream_encode_multipart saw them, in the model's syntax (call AFTER encoding: the header
+    list of a FileStorage is the one the encoder was given, Content-Type included)"""
+    toks = []
+    for k, v in data.items(multi=True):
+        if getattr(v, "read", None) is None:
+            toks.append(f"T;{cps(k)};{cps(v if isinstance(v, str) else str(v))}")
+            continue
+        fn = getattr(v, "filename", getattr(v, "name", None))
+        hd = "^".join(f"{cps(n)}~{cps(x)}" for n, x in v.headers) or "~"
+        if id(v.stream) in reads:
+            chunks = reads[id(v.stream)]
+        else:
+            body = v.stream.getvalue()
+            chunks = [body[i:i + 16384] for i in range(0, len(body), 16384)]
+        rd = ":".join(hexs(c) for c in chunks) or "~"
+        toks.append(f"L;{cps(k)};{'~' if fn is None else cps(fn)};{hd};{rd}")
+    return toks
+
+
 def _drain(dec, got, M):
     while True:
         ev = dec.next_event()
@@ -332,7 +445,7 @@ def main(chk: Check) -> None:
     except px.Unsupported as e:
         chk.broken("translator", "C02/Gen.v", str(e))
     chk.forbidden_scan()
-    if chk.coq_make(["C02/Proofs.vo", "C02/Encoder.vo", "C02/Extract.vo"]):
+    if chk.coq_make(["C02/Proofs.vo", "C02/Encoder.vo", "C02/ClientProofs.vo", "C02/Extract.vo"]):
         chk.audit_props("C02/Props.v")
     else:
         chk.cov["obligations"] += 1
